@@ -287,7 +287,18 @@ def handle (req : Json) : Except String Json := do
         (inters ++ m.derivs.map fun d => (d.1, d.2.2)).map fun a => (a.1, Impl.sortNames (π a.1 a.2))
       let topoAgree := staticOrder (addsOf false) == staticOrderRef (addsOf false) &&
         staticOrder (addsOf true) == staticOrderRef (addsOf true)
-      pure (Json.mkObj ([("ok", Json.bool true), ("layout", layJ), ("topo_ref_agrees", Json.bool topoAgree), ("wf", Json.bool (checkModelWF m)),
+      -- theorem ParseRender.parse_render, evaluated with the fuel the parser really uses
+      let trees : List PExpr := match parseOde text with
+        | .ok items => items.flatMap fun it => match it with
+          | .states _ ps => ps.map (·.value)
+          | .parameters _ ps => ps.map (·.value)
+          | .expressions _ as => as.map (·.rhs)
+          | .comment _ => []
+        | .error _ => []
+      let wfTrees := trees.filter Printer.WF
+      pure (Json.mkObj ([("ok", Json.bool true), ("layout", layJ), ("topo_ref_agrees", Json.bool topoAgree),
+        ("trees", Json.num trees.length), ("trees_wf", Json.num wfTrees.length),
+        ("render_roundtrip", Json.bool (wfTrees.all Printer.roundTrips)), ("wf", Json.bool (checkModelWF m)),
         ("gen_rhs_valid", Json.bool (match lay, Impl.genRhs m π false, Impl.genRhs m π true with
           | some L, some p0, some p1 => checkRhs m L p0 && checkRhs m L p1
           | _, _, _ => true)),
